@@ -18,6 +18,7 @@ RULE = (
     '; pass 5: exact log_prob path and scale_tril (triangular, L L^T) for joints above max_cholesky_size'
     '; pass 6: from_independent_mvns members sharing ONE covariance object; one index tensor object at two positions; index tensors must not be mutated'
     "; pass 9: to_data_independent_dist called again on the same object with other jitter values; index expressions on covariances stored as diagonal operators"
+    "; pass 10: tiny-variance multitask normals (reading variance / stddev leaves covariance and caller tensors alone); base samples come back unchanged"
 )
 REQUIRED = ["index_mean", "index_covariance", "log_prob", "variance", "rsample_LLt", "to_data_independent", "from_batch_mvn", "from_independent_mvns", "from_repeated_mvn"]
 ASSUMPTIONS = ["covariances are random dense SPD matrices (condition number < 1e3); representation dense tensor or DenseLinearOperator/Kronecker"]
